@@ -24,7 +24,7 @@ FUNCS = ["storage_index_hash", "ssk_readkey_hash", "ssk_storage_index_hash", "ss
 
 
 def plan(tier):
-    n = 200 if tier == "quick" else 3000
+    n = 600 if tier == "quick" else 3000
     return [{"kind": "hyp", "n": n} for _ in range(16)]
 
 
